@@ -757,5 +757,106 @@ func genC18(c *Ctx) {
 				Note: fmt.Sprintf("%s input %q, %d stopped runs", f.name, trunc(string(data), 160), stops)})
 		}
 	}
+	// a source whose failed read is followed by more data (a deadline that expired and was extended, a
+	// temporary network error): whatever the class of the error, its item is the last one
+	for _, f := range formats {
+		for _, class := range []string{"plain", "timeout", "temporary", "wraps-eof"} {
+			var data []byte
+			for len(data) < 600 {
+				data = append(data, f.wellFormed(c)...)
+			}
+			cut := len(data)/2 + c.rng.Intn(7)
+			var e error
+			switch class {
+			case "plain":
+				e = errFault
+			case "timeout":
+				e = os.ErrDeadlineExceeded
+			case "temporary":
+				e = tempErr{}
+			case "wraps-eof":
+				e = errWrapsEOF
+			}
+			items, st := f.decode(&resumeReader{parts: [][]byte{data[:cut], data[cut:]}, errs: []error{e}}, 0, len(data)+16)
+			oracle := ""
+			if st != "" {
+				oracle = "reader that fails once and then delivers more data: " + st
+			}
+			seenErr := false
+			for j, it := range items {
+				if it == "E" {
+					seenErr = true
+					if j != len(items)-1 {
+						oracle = fmt.Sprintf("%s: %d item(s) follow the item of a failed read (%s error, more data after it)", f.name, len(items)-1-j, class)
+					}
+				}
+			}
+			if !seenErr && oracle == "" {
+				oracle = fmt.Sprintf("%s: a failed read (%s error) after %d bytes produced no error item: %s", f.name, class, cut, trunc(joinItems(items), 80))
+			}
+			c.add(Case{Kind: f.name + "-error-then-more-data", Nontrivial: true, Oracle: oracle, Note: fmt.Sprintf("%s reader over a source that delivers %d bytes, fails once with a %s error, then delivers %d more bytes", f.name, cut, class, len(data)-cut)})
+		}
+		// File names are literal: metacharacters of shell patterns in a name select nothing else
+		dir := filepath.Join(workDir(), "c18-names-"+f.name)
+		os.MkdirAll(dir, 0o755)
+		own := f.wellFormed(c)
+		other := append(append([]byte(nil), f.wellFormed(c)...), f.wellFormed(c)...)
+		for _, nm := range []string{"s?.dat", "s*.dat", "s[12].dat", "s{1,2}.dat"} {
+			os.WriteFile(filepath.Join(dir, nm), own, 0o644)
+			for _, sib := range []string{"s1.dat", "s2.dat", "s12.dat"} {
+				os.WriteFile(filepath.Join(dir, sib), other, 0o644)
+			}
+			want, _ := f.decode(bytes.NewReader(own), 0, len(own)+16)
+			oracle := ""
+			for _, stop := range []int{0, 1} {
+				got, st := f.file(filepath.Join(dir, nm), stop, len(own)+len(other)+16)
+				w := want
+				if stop > 0 && stop < len(w) {
+					w = w[:stop]
+				}
+				if st != "" && oracle == "" {
+					oracle = fmt.Sprintf("%s.File(%q) stopped after %d: %s", f.name, nm, stop, st)
+				} else if joinItems(got) != joinItems(w) && oracle == "" {
+					oracle = fmt.Sprintf("%s.File(%q) (other files s1.dat, s2.dat, s12.dat exist): items %s, the file holds %s", f.name, nm, trunc(joinItems(got), 80), trunc(joinItems(w), 80))
+				}
+			}
+			c.add(Case{Kind: f.name + "-file-name-literal", Nontrivial: true, Oracle: oracle, Note: fmt.Sprintf("%s.File on a file literally named %q next to s1.dat, s2.dat, s12.dat", f.name, nm)})
+		}
+		os.RemoveAll(dir)
+	}
 	genC18Iterators(c)
 }
+
+// resumeReader delivers parts[0], fails with errs[0], delivers parts[1], …, then EOF.
+type resumeReader struct {
+	parts [][]byte
+	errs  []error
+	k     int
+	calls int
+}
+
+func (r *resumeReader) Read(p []byte) (int, error) {
+	r.calls++
+	if r.calls > 1<<20 {
+		panic("reader polled more than 2^20 times")
+	}
+	for r.k < len(r.parts) {
+		if len(r.parts[r.k]) > 0 {
+			n := copy(p, r.parts[r.k])
+			r.parts[r.k] = r.parts[r.k][n:]
+			return n, nil
+		}
+		r.k++
+		if r.k-1 < len(r.errs) {
+			return 0, r.errs[r.k-1]
+		}
+	}
+	return 0, io.EOF
+}
+
+// tempErr is a net.Error-like error that calls itself temporary and a timeout
+type tempErr struct{}
+
+func (tempErr) Error() string   { return "injected temporary failure" }
+func (tempErr) Timeout() bool   { return true }
+func (tempErr) Temporary() bool { return true }
